@@ -397,8 +397,8 @@ func superviseCheck(p Property, tier string, seed uint64) int {
 		}
 	}
 	defer os.RemoveAll(dir)
-	os.MkdirAll(filepath.Join(home, "replays"), 0o755)
-	os.MkdirAll(filepath.Join(home, "evidence"), 0o755)
+	os.MkdirAll(filepath.Join(outHome(), "replays"), 0o755)
+	os.MkdirAll(filepath.Join(outHome(), "evidence"), 0o755)
 	fmt.Printf("check %s tier=%s seed=%d workers=%d\n", p.ID(), tier, seed, W)
 	deadline := time.Now().Add(cfg.wallCap)
 
@@ -539,7 +539,7 @@ func superviseCheck(p Property, tier string, seed uint64) int {
 		if reported >= 3 {
 			break
 		}
-		path := filepath.Join(home, "replays", fmt.Sprintf("%s-%d-%d-%d.json", rf.Property, seed, rf.PhaseIdx, rf.CaseIdx))
+		path := filepath.Join(outHome(), "replays", fmt.Sprintf("%s-%d-%d-%d.json", rf.Property, seed, rf.PhaseIdx, rf.CaseIdx))
 		os.WriteFile(path, []byte(mustJSON(rf)), 0o644)
 		ok, how := reproduces(rf, path)
 		if !ok {
